@@ -30,11 +30,15 @@ Uniq(seed, i, j) == (i * 3 + j * 5 + seed) % 7
 NChunks(n) == (n + ChunkSize - 1) \div ChunkSize
 ChunkOf(n, c) == ((c - 1) * ChunkSize + 1)..(IF c * ChunkSize < n THEN c * ChunkSize ELSE n)
 
+\* targets for the arg-max rule: strict one-hot (tol2 = 1) or graded scores with a unique maximum (tol2 = 3; the
+\* tolerance is irrelevant for this rule, so the field doubles as the target style)
 MkData(n, len, rule, tol2, obj, seed) ==
   [n |-> n, len |-> len, rule |-> rule, tol2 |-> tol2, obj |-> obj, seed |-> seed,
    preds   |-> [i \in 1..n |-> [j \in 1..len |-> IF rule = "argmax" THEN Uniq(seed, i, j) ELSE Val(seed, i * 11 + j)]],
    targets |-> [i \in 1..n |-> [j \in 1..len |->
-                  IF rule = "argmax" THEN (IF j = ((i * 2 + seed) % len) + 1 THEN 1 ELSE 0)
+                  IF rule = "argmax"
+                    THEN (IF tol2 = 1 THEN (IF j = ((i * 2 + seed) % len) + 1 THEN 1 ELSE 0)
+                                      ELSE Uniq(seed + 2, i + 1, j + 3))
                   ELSE Val(seed + 3, i * 13 + j) \div 2]]]
 
 Datasets ==
